@@ -92,7 +92,11 @@ def step(snap, cfg, forced=None, deviation=None, force_cond=False):
         if kind != 'arm' and (snap['cpsr'] >> 10 & 0x3F or snap['cpsr'] >> 25 & 3) and row.sem != 'it' and not info.get('no_it_advance'):
             if not cpu.it_frozen:
                 cpu.it_advance()
-    except RefUndefined:
+    except RefUndefined as ex:
+        if ex.args:
+            # raised by the instruction's own operation (integer divide-by-zero trap), i.e. inside "if ConditionPassed()":
+            # the latitude for UNDEFINED encodings that fail their condition does not apply to it
+            info['undef_from_execution'] = True
         cpu.take_undef()
     except RefSVC:
         cpu.take_svc()
